@@ -460,6 +460,13 @@ func (fr *frame) execBuiltin(b *ssa.Builtin, c *ssa.CallCommon, args []Val, st *
 					}
 				}
 			}
+			if isStringType(t.Key()) {
+				// the length of a map is a function of its key set
+				pk, ps, _, _ := fr.mapHeaps(t)
+				hp := vc.heapGet(st, pk, ps)
+				vc.declareRaw("maplen!String", "(declare-fun maplen!String ((Array String Bool)) Int)")
+				return Val{t: "(maplen!String (select " + hp + " " + args[0].t + "))"}
+			}
 		}
 		v := vc.havocVal(instr.Type(), "len", "")
 		vc.assume("true", "(>= "+v.t+" 0)")
